@@ -13,6 +13,6 @@ Extraction "model.ml"
   to_internal ilp_eqb wf_ulp
   opt_test infeas_test wf_logicals
   exact_solver_gen exact_solver
-  neg_obj scale_row_lp dup_row add_redundant split_eq perm_rows is_perm subst_vars
+  neg_obj scale_row_lp dup_row add_redundant split_eq perm_rows is_perm subst_vars perm_cols
   (* add names below, one line per area *)
   .
